@@ -52,6 +52,9 @@ def separate_input_attributes_from_arguments(
     onnx_inputs = []
     onnx_attributes = collections.OrderedDict()
     has_variadic = False
+    # ONNX identifies an input by its position: optional inputs that were omitted become
+    # empty (None) positions as soon as a later input is supplied.
+    omitted_inputs = 0
 
     for i, param in enumerate(op_signature.params):
         is_input = param.is_param()
@@ -60,16 +63,23 @@ def separate_input_attributes_from_arguments(
         if is_variadic:
             has_variadic = True
             # Exhaust all remaining args
+            if args[i:]:
+                onnx_inputs.extend([None] * omitted_inputs)
+                omitted_inputs = 0
             onnx_inputs.extend(args[i:])
             args = []
             continue
         if i < len(args):
             if is_input:
+                onnx_inputs.extend([None] * omitted_inputs)
+                omitted_inputs = 0
                 onnx_inputs.append(args[i])
             else:
                 onnx_attributes[param.name] = args[i]
         elif param.name in kwargs:
             if is_input:
+                onnx_inputs.extend([None] * omitted_inputs)
+                omitted_inputs = 0
                 onnx_inputs.append(kwargs[param.name])
             else:
                 onnx_attributes[param.name] = kwargs[param.name]
@@ -80,6 +90,8 @@ def separate_input_attributes_from_arguments(
                 onnx_attributes[param.name] = param.default.value
         elif param.required:
             raise TypeError(f"Required input '{param}' was not provided")
+        elif is_input:
+            omitted_inputs += 1
 
     if not allow_extra_args and not has_variadic and len(args) > len(op_signature.params):
         raise TypeError(
